@@ -101,7 +101,8 @@ fn session_run(rt: &tokio::runtime::Runtime, fr: &Frames, idx: &RepIndex, verify
         f.verify_version(verify);
         let mut trace = vec![];
         for _ in 0..fr.frames.len() + 8 {
-            match tokio::time::timeout(Duration::from_secs(3), f.read()).await {
+            watch_arm("tokio Framed::read over the WebSocket adaptor"); let rr = tokio::time::timeout(Duration::from_secs(3), f.read()).await; watch_disarm();
+            match rr {
                 Err(_) => { trace.push("STALLED".into()); break; },
                 Ok(Ok(p)) => trace.push(idx.token(&p)),
                 Ok(Err(e)) => { let (tok, fin) = err_token(&e); trace.push(tok.clone()); if fin || is_transient_tok(&tok) { break; } },
@@ -158,7 +159,7 @@ fn case_from_id(id: &str) -> Option<(bool, bool, Vec<Vec<u8>>, Vec<Msg>)> {
 }
 
 fn run_session_case(id: &str, rt: &tokio::runtime::Runtime, st: &mut Stats, out: Option<&mut Out>, rng: &mut Rng) -> bool {
-    let (compressed, verify, frames, script) = case_from_id(id).unwrap();
+    let (compressed, verify, frames, script) = case_from_id(id).unwrap(); set_case(id);
     let fr = Frames::new(compressed, frames); let idx = RepIndex::new(&fr);
     let (trace, bins, others) = session_run(rt, &fr, &idx, verify, &script);
     st.evaluations += 1;
@@ -430,6 +431,7 @@ pub fn run(a: &Args) {
     for (name, ending) in [("close handshake mid-frame", Msg::Close), ("TCP reset without a close handshake", Msg::Reset), ("close 1000", Msg::CloseCode(1000)), ("close 1001", Msg::CloseCode(1001)), ("close 1008", Msg::CloseCode(1008)), ("close 1011", Msg::CloseCode(1011)), ("close 1012", Msg::CloseCode(1012)), ("close 4000", Msg::CloseCode(4000))] {
         let fr = Frames::new(true, vec![raw_frame(true, 3, 1, &[1]), raw_frame(true, 3, 2, &[2])]); let idx = RepIndex::new(&fr);
         let script = vec![Msg::Bin(fr.frames[0].clone()), Msg::Bin(fr.frames[1][..2].to_vec()), ending.clone()];
+        set_case("closure");
         let (trace, _, _) = session_run(&rt, &fr, &idx, false, &script);
         st.evaluations += 1;
         st.notes.push(format!("{name}: reads return {}", trace.join(" ")));
